@@ -37,6 +37,7 @@ EXPLANATION = (
     "against the guideline (no second statement of those formulas in the repository).")
 EXPLANATION += (' R-C09-2 additionally requires E to be the assessment parameter, not the material-group table value. R-C09-6: the early-failure position (searchsorted in the cumulative damage of all rows) is compared with the row count of those same rows in both lifetime properties of both calculators, which use the same test and report 0 repetitions / the failure position; P_RAM: x = (1 - D_1)/D_2 with the damage sums of pass 1 / pass 2, repetitions x + 1, cycles = repetitions times the pass-2 count.')
 EXPLANATION += (" R-C09-4 now decides each load safety factor per P_L case on the closed form of the returned value (definitions inlined, conditional expressions case-split): normal (L_max + alpha)/L_max, log-normal max(1, 10**alpha), alpha = (0.7 beta - 2) s | 0.7 beta s. R-C09-7: compute_beta hands the failure probability itself to the normal distribution function; forming 1 - P_A first (cancellation for small probabilities) is a violation.")
+EXPLANATION += (" R-C09-9: the frame the damage parameter writes its P_RAM column into is the object's own copy, not the caller's table (effect analysis: provenance of the attribute).")
 EXPLANATION += (" R-C09-8: no root finder in the FKM-nonlinear modules is applied to the absolute value of its residual (kink at the root, no sign change); where compute_beta is the closed form -ppf(P_A) / isf(P_A), R-C09-7 records that as the negative standard-normal quantile.")
 ASSUMPTIONS = ["P_Z, P_D, N positive; d_1, d_2, d_RAJ negative (checked by the curve validators)",
                "statistics.NormalDist().inv_cdf is the standard normal quantile"]
@@ -120,8 +121,38 @@ class CurveNF:
 
 
 def run(ctx):
-    for r in (_curves, _pram, _constants, _beta, _half, _accumulation, _complement, _signed_residuals):
+    for r in (_curves, _pram, _constants, _beta, _half, _accumulation, _complement, _signed_residuals, _own_table):
         ctx.attempt(r)
+
+
+def _own_table(ctx):
+    """R-C09-9: the table the damage parameter writes its P_RAM column into is the object's own copy.  If the attribute holds
+    the caller's frame itself, a second evaluation of the same table with other parameters (another material group, another E)
+    overwrites the column the first object reports: its P_RAM is then no longer sqrt((S_a + k S_m) eps_a E) of *its* parameters."""
+    from ..effects import Effects
+    prog = ctx.prog
+    ctx.rule("R-C09-9", floor=1, what="the table P_RAM is written into is a copy owned by the damage-parameter object")
+    ci = prog.cls(DP + "P_RAM")
+    target = set()
+    for name, defs in ci.methods.items():
+        for st in walk_function(defs[-1].node):
+            if isinstance(st, ast.Assign):
+                for t in st.targets:
+                    if isinstance(t, ast.Subscript) and is_self_attr(t.value) and const_value(t.slice) == "P_RAM":
+                        target.add(t.value.attr)
+    if len(target) != 1:
+        raise AnalysisError("P_RAM: the attribute that receives the P_RAM column was not found")
+    attr = next(iter(target))
+    prov = Effects(prog).attr_provenance(ci)
+    held = [(o, m) for o, m in prov.get(attr, []) if o[0] in ("param", "elem")]
+    init = prog.lookup_method(ci, "__init__")
+    if held:
+        o, m = held[0]
+        ctx.violated(init, init.node, "P_RAM keeps the caller's table itself (%s of the argument %s) in self.%s and writes the P_RAM "
+                     "column into it: evaluating the same table again with other parameters overwrites the values this object "
+                     "reports" % (m, o[1], attr), text="aliased table " + attr)
+    else:
+        ctx.holds(init, init.node, "self.%s, which receives the P_RAM column, is not a view of a constructor argument" % attr)
 
 
 def _stmt_value(f, name=None):
@@ -1025,6 +1056,16 @@ LP = "src/pylife/strength/fkm_load_distribution.py"
 
 def variants():
     out = []
+
+    def alias_table(tree):
+        f = find_func(tree, "P_RAM.__init__")
+        for st in ast.walk(f):
+            if isinstance(st, ast.Assign) and is_self_attr(st.targets[0], "_collective") and isinstance(st.value, ast.Call) and \
+                    isinstance(st.value.func, ast.Attribute) and st.value.func.attr == "copy":
+                st.value = st.value.func.value
+                return True
+        return False
+    out.append(witness("P_RAM annotates the caller's table instead of a copy", DPP, alias_table, "R-C09-9"))
 
     def pass2_full(tree):
         f = find_func(tree, "DamageCalculatorPRAM.lifetime_n_times_load_sequence")
